@@ -265,6 +265,28 @@ def step (st : DState) (line : String) : DState × String :=
        let (c', ok) := addRule st.cfg lang ⟨.api (stringOfHex name) k, ps⟩
        ({ st with cfg := c' }, if ok then "1" else "0")
      | _, _ => (st, "unsupported"))
+  | ["rule_add_text", lang, name, kind, a1, a2, pats] =>
+    -- registration from the pattern TEXTS (hex, '|'-separated): the model tokenises them itself, in the rule's language
+    let texts : List String := if pats = "" then [] else (pats.splitOn "|").map stringOfHex
+    let k : Option (ApiKind Float) :=
+      if kind = "const" then some (.const (floatOfHex a1)) else if kind = "decline" then some .decline
+      else if kind = "echo" then some (.echo (stringOfHex a1)) else if kind = "sum" then some .sum
+      else if kind = "coin" then some (.coin (floatOfHex a1) a2)
+      else if kind = "when" then (match a2.splitOn ":" with | [f, w] => some (.when (stringOfHex f) (stringOfHex w) (floatOfHex a1)) | _ => none) else none
+    (match k with
+     | some k =>
+       (match addRuleText Gen.lexEnv st.cfg st.now lang (.api (stringOfHex name) k) texts with
+        | some (c', ok) => ({ st with cfg := c' }, if ok then "1" else "0")
+        | none => (st, "unsupported"))
+     | none => (st, "unsupported"))
+  | ["dtype_item_text", g, idx, fmt, upc, downc, nms, dig, pats] =>
+    let texts : List String := if pats = "" then [] else (pats.splitOn "|").map stringOfHex
+    let nameList : List String := if nms = "" then [] else (nms.splitOn ".").map stringOfHex
+    let digs : Option Nat := if dig = "-" then none else some dig.toNat!
+    let it : UnitItem Float := ⟨stringOfHex g, idx.toNat!, stringOfHex fmt, [], stringOfHex upc, stringOfHex downc, nameList, digs, none, none⟩
+    (match addDynamicTypeItemText Gen.lexEnv st.cfg st.now it texts with
+     | some (c', ok) => ({ st with cfg := c' }, if ok then "1" else "0")
+     | none => (st, "unsupported"))
   | ["rule_del", lang, name] =>
     let (c', ok) := deleteRule st.cfg lang (stringOfHex name)
     ({ st with cfg := c' }, if ok then "1" else "0")
